@@ -100,7 +100,8 @@ func buildWitness(c *Case) []WOp {
 	for _, s := range c.Seen {
 		seen[s.N] = s
 	}
-	for i, o := range c.Ops {
+	for _, i := range hubOrder(c) {
+		o := c.Ops[i]
 		switch o.K {
 		case "join":
 			s := seen[o.N]
